@@ -3,6 +3,8 @@ import TTV.Model.ResC08
 import TTV.Spec.C08
 import TTV.Lemmas.DetailsStr
 import TTV.Generated.C08
+import TTV.Generated.EtodSrc
+import TTV.Lemmas.SrcRefRes
 /-! # C08 — result adapters deliver each call once, at the richest protocol the target has
 
 Theorems over the tree model M-Res (`TTV/Model/Result.lean`): **every** adapter graph (any depth, any fan-out) built
@@ -1107,5 +1109,88 @@ example : inScope { shape := .tfr (.etod (.multi [.etod (.sink .py26), .etod (.t
 
 example : tbtExpect none none [.startTest 4, .add .uxsuccess 4 (.details [(['x'], .text ['y'])]), .stopTest 4]
     = [(4, some .success, some [(['x'], .text ['y'])])] := rfl
+
+/-! ## the code itself (translator tie, DESIGN D.2a item 2e)
+
+`harness/pyres2lean.py` re-reads the adapters on every run into `TTV/Generated/EtodSrc.lean`: per outcome method of
+`ExtendedToOriginalDecorator` the fallback rule (probe → substitution when the target lacks the method → argument check →
+`details=` first → conversion on `TypeError` → final call → `finally`), and the canonical skeletons of the helpers, of
+`TestByTestResult` and of `TestResultDecorator`. -/
+section src
+def ruleOf (k : Kind) : List String := (TTV.SrcRef.EtodSrc.etodAdd.lookup (methodName k)).getD []
+
+/-- the capability a rule's `getattr` probe tests -/
+def hasMethod (c : Caps) : Kind → Bool
+  | .skip => c.skip | .xfail => c.xfail | .uxsuccess => c.uxs | _ => true
+
+/-- what the rule substitutes when the probe finds nothing -/
+def substOf (k : Kind) : String → Kind
+  | "addSuccess" => .success
+  | "addFailure(synthetic)" => .failure
+  | _ => k
+
+/-- **C08 (source: the fallback rules of `ExtendedToOriginalDecorator`).**  The rules read from the source are the
+reference rules, and the model's degradation table is their meaning: a method is probed with `getattr` exactly for skip,
+expected failure and unexpected success; a missing `addSkip` / `addExpectedFailure` becomes `addSuccess`, a missing
+`addUnexpectedSuccess` a synthetic `addFailure`; every method tries `details=` first and converts on `TypeError` (to an
+`exc_info`, to the reason — or the description of the details —, or drops them); errors, failures and unexpected successes
+run under `finally: if self.failfast: self.stop()`. -/
+theorem C08_src_etod_rules :
+    TTV.Generated.EtodSrc.etodAdd = TTV.SrcRef.EtodSrc.etodAdd ∧
+    (∀ (c : Caps) (k : Kind), degradeKind c k = if hasMethod c k then k else substOf k ((ruleOf k).getD 1 "")) ∧
+    (∀ k : Kind, ((ruleOf k).getD 0 "" == "getattr-probe") = (k == .skip || k == .xfail || k == .uxsuccess)) ∧
+    (∀ k : Kind, (ruleOf k).getD 3 "" = "details-first") ∧
+    (∀ k : Kind, ((ruleOf k).getD 6 "" == "failfast-stop") = (k == .error || k == .failure || k == .uxsuccess)) ∧
+    (∀ k : Kind, (ruleOf k).getD 4 "" =
+      match k with
+      | .error | .failure | .xfail => "exc-info"
+      | .skip => "reason-or-description"
+      | .success | .uxsuccess => "drop") := by
+  refine ⟨rfl, ?_, ?_, ?_, ?_, ?_⟩
+  · intro c k; cases k <;> simp [degradeKind, hasMethod, substOf, ruleOf, methodName, TTV.SrcRef.EtodSrc.etodAdd, List.lookup]
+  all_goals (intro k; cases k <;> decide)
+
+/-- **C08 (source: helpers and the other methods of `ExtendedToOriginalDecorator`).** -/
+theorem C08_src_etod_helpers :
+    TTV.Generated.EtodSrc.etodCheckArgs = TTV.SrcRef.EtodSrc.etodCheckArgs ∧
+    TTV.Generated.EtodSrc.etodDetailsToExcInfo = TTV.SrcRef.EtodSrc.etodDetailsToExcInfo ∧
+    TTV.Generated.EtodSrc.etodDone = TTV.SrcRef.EtodSrc.etodDone ∧
+    TTV.Generated.EtodSrc.etodProgress = TTV.SrcRef.EtodSrc.etodProgress ∧
+    TTV.Generated.EtodSrc.etodTags = TTV.SrcRef.EtodSrc.etodTags ∧
+    TTV.Generated.EtodSrc.etodTime = TTV.SrcRef.EtodSrc.etodTime ∧
+    TTV.Generated.EtodSrc.etodStartTest = TTV.SrcRef.EtodSrc.etodStartTest ∧
+    TTV.Generated.EtodSrc.etodStopTest = TTV.SrcRef.EtodSrc.etodStopTest ∧
+    TTV.Generated.EtodSrc.etodStopTestRun = TTV.SrcRef.EtodSrc.etodStopTestRun :=
+  ⟨rfl, rfl, rfl, rfl, rfl, rfl, rfl, rfl, rfl⟩
+
+/-- **C08 (source: `TestByTestResult`).**  `startTest` records the start time and clears the per-test fields; `stopTest`
+takes the stop time and the tags, leaves the test's tag context (`super().stopTest`) and only then calls `on_test` with
+exactly the six keyword arguments; the outcome methods store the status word (`C08_tbt_table`) and the details. -/
+theorem C08_src_tbt :
+    TTV.Generated.EtodSrc.tbtStartTest = TTV.SrcRef.EtodSrc.tbtStartTest ∧
+    TTV.Generated.EtodSrc.tbtStopTest = TTV.SrcRef.EtodSrc.tbtStopTest ∧
+    TTV.Generated.EtodSrc.tbtErrToDetails = TTV.SrcRef.EtodSrc.tbtErrToDetails ∧
+    TTV.Generated.EtodSrc.tbtAddSkip = TTV.SrcRef.EtodSrc.tbtAddSkip ∧
+    TTV.Generated.EtodSrc.tbtAddSuccess = TTV.SrcRef.EtodSrc.tbtAddSuccess ∧
+    TTV.Generated.EtodSrc.tbtAddError = TTV.SrcRef.EtodSrc.tbtAddError ∧
+    TTV.Generated.EtodSrc.tbtAddUnexpectedSuccess = TTV.SrcRef.EtodSrc.tbtAddUnexpectedSuccess ∧
+    -- the order in `stopTest`: the tags are read, then the test's tag context is left, and only then comes the callback
+    (TTV.SrcRef.EtodSrc.tbtStopTest.drop 2 =
+      ["  v0 = set(self.current_tags)", "  super().stopTest(a0)",
+       "  self._on_test(test=a0, status=self._status, start_time=self._start_time, stop_time=self._stop_time, tags=v0, details=self._details)"]) :=
+  ⟨rfl, rfl, rfl, rfl, rfl, rfl, rfl, rfl⟩
+
+/-- **C08 (source: `TestResultDecorator` / `Tagger`).**  Every method of the decorator makes exactly one call of the same
+name on the decorated result (outcomes with `details=` passed through); `Tagger.startTest` is the forwarded `startTest`
+followed by `tags(new, gone)` — unconditionally. -/
+theorem C08_src_deco_forward :
+    TTV.Generated.EtodSrc.decoForward = TTV.SrcRef.EtodSrc.decoForward ∧
+    TTV.Generated.EtodSrc.taggerStartTest = TTV.SrcRef.EtodSrc.taggerStartTest ∧
+    (∀ k : Kind, ((TTV.SrcRef.EtodSrc.decoForward.lookup (methodName k)).getD []).length = 1) ∧
+    (∀ (n g : TagSet) (c : Shape) (st : St c) (t : Nat),
+      step (.tagger n g c) st (.startTest t) = step c (step c st (.startTest t)) (.tags n g)) := by
+  refine ⟨rfl, rfl, ?_, fun _ _ _ _ _ => rfl⟩
+  intro k; cases k <;> decide
+end src
 
 end TTV.Props.C08
